@@ -240,3 +240,31 @@ Definition keys_agree (tbl : list (val * Z)) (na_last : bool) (keys : list (nat 
   forallb2 (fun a b => forallb2 (fun x y => match cmp_keys tbl na_last keys x y with Eq => true | _ => false end) (recs a) (recs b)
                        && Bool.eqb (match a with Some _ => true | None => false end) (match b with Some _ => true | None => false end))
            r1 r2.
+
+(* ---------- eval on a nest (C13): values on the flat view, assignment of a field record by record ---------- *)
+(* the value of an expression over the fields of one nest: one value per flat record (the evaluator is pointwise:
+   contract), carrying the flat index *)
+Definition m_eval_value (labels : list Z) (rows : list nrow) (e : record -> val) : list (Z * val) :=
+  combine (flat_repeat labels (row_lens rows)) (map e (m_flat rows)).
+
+(* position k of a record := v (k = width: a new field is appended) *)
+Definition assign_rec (k : nat) (r : record) (v : val) : record :=
+  if k <? length r then firstn k r ++ v :: skipn (S k) r else r ++ [v].
+
+(* nest.field = values: NestedFrame.__setitem__ -> with_flat_field -> set_flat_field cuts the flat values by the row
+   lengths (C06); on record-major rows: consume the values row by row, a missing row takes none *)
+Fixpoint assign_rows (k : nat) (rows : list nrow) (vals : list val) : list nrow :=
+  match rows with
+  | [] => []
+  | None :: t => None :: assign_rows k t vals
+  | Some rs :: t => Some (map2 (assign_rec k) rs (firstn (length rs) vals)) :: assign_rows k t (skipn (length rs) vals)
+  end.
+Definition m_eval_assign (k : nat) (rows : list nrow) (vals : list val) : res (list nrow) :=
+  if length vals =? length (m_flat rows) then Ok (assign_rows k rows vals) else Err.
+
+(* a program: lines "nest.field_k = e" evaluated left to right, each on the CURRENT rows *)
+Definition m_eval_program (prog : list (nat * (record -> val))) (rows : list nrow) : list nrow :=
+  fold_left (fun rs ke => assign_rows (fst ke) rs (map (snd ke) (m_flat rs))) prog rows.
+(* the same program run on the plain flat table *)
+Definition flat_program (prog : list (nat * (record -> val))) (recs : list record) : list record :=
+  fold_left (fun rs ke => map (fun r => assign_rec (fst ke) r (snd ke r)) rs) prog recs.
